@@ -64,10 +64,35 @@ CLAIM = {
             "(declared shapes = computed shapes is checked). Refuted: an exit path (for/inf, map/zero, filter/err) that returns its object twice - with "
             "optimisation; WITHOUT optimisation the same deviation satisfies every law, i.e. the two modes differ. B1: every scenario runs in two fresh child "
             "processes (optimising / plain compiler): p and w on 4 lines twice sequentially, then from 8 goroutines; every value = ExprArray!EvalT's value in "
-            "both processes, the processes agree, neither dies. B2: random processes with data-bounded loops and nested witnesses, law proc-opt-noopt.",
+            "both processes, the processes agree, neither dies. B2: random processes with data-bounded loops and nested witnesses, law proc-opt-noopt. "
+            "THE MOMENT A DEFINITION IS COMPILED (strengthened): ExprStartup.tla models a run as a start-up script - apply the global switches (--noformat, "
+            "--color/--nocolor, --noload, --nounicode), load the funcs files in the order given with ONE compiler, definition by definition (compile the body, always "
+            "optimising; register the name), compile the expression (optimising or not), evaluate. Two things in force at the moment a body is compiled are "
+            "frozen into it: the function table (a call inside a body is resolved when the body is compiled, to the latest definition that compiled before it; "
+            "a re-definition further down or in a second file changes what the expression and later definitions see, never an earlier body) and the environment "
+            "(helpers read process-wide switches when they are evaluated; the optimiser evaluates constant parts of a body while the file is loaded). Abstract "
+            "layer: Expected = ValP(Inline(expr)) - every funcs-file call replaced by the body of the latest good definition before that place, {i} by the "
+            "arguments, evaluated in the RUN's environment; a compile error when the inlined text does not compile there ({load} under --noload). "
+            "Implementation-shaped layer: Comp (names resolved now, whatever a probe with the all-empty counting context finds constant folded now, under the "
+            "environment of now; optionally a text -> compiled memory) and ExecT (bound definitions, lazy argument frames, look-up count). TLC proves Agrees "
+            "(out = Expected, optimising or not), BindsAtDefinition, FoldsUnderRunEnv over 7 switch sets x hand-written funcs files with flag-dependent constants ({hi N}, "
+            "{color c x}, {load f}, {bar v max len}, nested, a later definition calling an earlier one with such a constant) and re-definitions (inside one file, across two "
+            "files, identically spelt bodies and arguments before and after, a failing re-definition) x calls with a constant, {0} and an empty argument, and over EVERY history of <= 2 (3; 4 over five entries) definitions "
+            "drawn from a pool (two spellings of the helper, two identically spelt callers, a wrapped re-definition of a caller, a caller of the caller, a helper "
+            "with a flag-dependent constant, a failing re-definition) as one file and split into two files at every position; "
+            "refuted: Order = funcs-first (files loaded before the switches are applied) and Cache = text (the compiler remembers compiled texts across "
+            "registrations). B1: every scenario through the real command line `rare <switches> --funcs f1 [--funcs f2] expression [--no-optimize]` and "
+            "RARE_FUNC_FILES=f1,f2, the inlined text under the same switches, and in-process the way main.go registers them. ExprCallPool.tla: the end of a call "
+            "is an ORDER of steps (Get / bind caller / evaluate / [clear] / Return): Clear = before is equivalent to the code, Clear = after (Return, then drop "
+            "the caller reference - two deferred calls in source order) satisfies every value law for ONE evaluator and violates SeesOwn for two. B1: one "
+            "funcs-file call site (a body calling an earlier definition twice, arguments read three times each) compiled once in a child process and evaluated "
+            "from 16 and 64 goroutines, each on its own line with TLC's value for that line, 20 000 (200 000) rounds, optimising and plain compiler; a child "
+            "that dies with a rare frame or any foreign / missing value is a violation.",
     "note": "Probe scenarios: activation shapes abstract one element per activation; the exit path of a NESTED helper under the probe is computed with "
-            "empty elements; only the process-wide sub-context pool is modelled (the per-stage pools of {! ..} and of funcs-file call sites are exercised by "
-            "conc-seq on optimised expressions); a pool that merely grows (leak) is not demanded. Failing definitions: wrong argument counts are not in the "
+            "empty elements; ExprProbe models only the process-wide sub-context pool (the per-call-site pools of funcs-file functions are ExprCallPool's, "
+            "the per-stage pools of {! ..} are exercised by conc-seq on optimised expressions); the contended call site samples real interleavings for a fixed "
+            "number of rounds (the enumeration is on the model); start-up scenarios cover --noformat / --color / --nocolor / --noload / --nounicode with hi, color, load and "
+            "empty / full bars (partial blocks, hf, bytesize .. are not modelled; --notrim does not reach expressions); a funcs-file name shadowing a builtin is outside; a pool that merely grows (leak) is not demanded. Failing definitions: wrong argument counts are not in the "
             "parse model (B2 only); what the loader's error value says is not demanded. "
             "Bounded: trees of depth <= 2, values over {'',0,7,a}, the modelled helper subset in B3/B1 (the law records of B2 cover every "
             "registered helper but only relate two observations). Outside the substitution law: bodies that re-bind {0} in a nested "
@@ -110,10 +135,15 @@ def _probe_cfg(case, pis, wis, opts=(True, False), evalp=False, g=2, fifo=False,
                "PROPERTY Terminates\n" if live else ""))
 
 
-def _pool_cfg(w, j, p, prog, locked=True, early=False, init=True, inv="TypeOK SeesOwn Exclusive NoLeak Bounded"):
+def _pool_cfg(w, j, p, prog, locked=True, early=False, init=True, inv="TypeOK SeesOwn Exclusive NoLeak Bounded", clear="none"):
     return ("SPECIFICATION Spec\nCONSTANTS W = %d\n J = %d\n P = %d\n Sites <- Sites%s\n Body <- Body%s\n Args <- Args%s\n Main <- Main%s\n"
-            " Locked = %s\n EarlyReturn = %s\n InitSub = %s\nINVARIANTS %s\nCHECK_DEADLOCK FALSE\n"
-            % (w, j, p, prog, prog, prog, prog, _b(locked), _b(early), _b(init), inv))
+            " Locked = %s\n EarlyReturn = %s\n InitSub = %s\n Clear = \"%s\"\nINVARIANTS %s\nCHECK_DEADLOCK FALSE\n"
+            % (w, j, p, prog, prog, prog, prog, _b(locked), _b(early), _b(init), clear, inv))
+
+
+def _su_cfg(order="flags-first", cache="none", scn="MCScenariosQ", inv="Agrees BindsAtDefinition FoldsUnderRunEnv", live=True):
+    return ("SPECIFICATION Spec\nCONSTANTS Order = \"%s\"\n Cache = \"%s\"\n Scenarios <- %s\nINVARIANTS %s\n%sCHECK_DEADLOCK FALSE\n"
+            % (order, cache, scn, inv, "PROPERTY Terminates\n" if live else ""))
 
 
 def check(run):
@@ -143,6 +173,10 @@ def _check(run):
         "function loaded from a funcs file",
         "the optimiser's probe may take any time, but it may not change what a later evaluation in the same process answers; expressions whose loop "
         "runs away on REAL data are outside (C08)",
+        "definition-time binding: a call inside a funcs-file body is bound to the definition in force where the body is defined (what the unchanged "
+        "compiler does: names are resolved when a text is compiled); 'the body written inline' is therefore read as inline AT THE PLACE OF THE DEFINITION; "
+        "for names that are not re-defined later this is the body written inline in the expression itself, which is what the command-line comparison runs",
+        "global switches are read at evaluation time; the default environment of a run whose output is a pipe has colour off, formatting on, loading on",
         "command-line sample: group values that urfave/cli would split, trim or drop (commas, surrounding blanks, empty) are not sent through the CLI",
     ]
     run.build_harness()
@@ -219,7 +253,7 @@ def _check(run):
 
     def loader_layout():
         r2 = run.tlc("FuncFile_MC", _ff_cfg(1, "layout", inv="InvLineCount InvNoLeak InvPrefix InvDone InvLayout InvRuns InvKeepsGood").replace("PROPERTY Terminates\n", ""),
-                      workers=1 if quick else 4, timeout=3000, label="FuncFile_MC layout law")
+                      workers=2 if quick else 4, timeout=3000, label="FuncFile_MC layout law")
         require_clean(run, r2, "FuncFile_MC layout")
         if r2.distinct < 50000:
             raise Inconclusive("layout law explored only %d states" % r2.distinct)
@@ -237,8 +271,17 @@ def _check(run):
             total += r.distinct
         if total < 50000:
             raise Inconclusive("call-pool model explored only %d states" % total)
+        # the end of a call as an order of steps: dropping the caller reference BEFORE the object goes back is as good as not dropping it
+        r = run.tlc("ExprCallPool_MC", _pool_cfg(2, 2, 1, "Flat", clear="before"), workers=2, timeout=3000, label="ExprCallPool W=2 J=2 P=1 Flat Clear=before")
+        require_clean(run, r, "ExprCallPool Clear=before")
+        total += r.distinct
+        # .. and dropping it AFTER (two deferred calls in source order) is invisible to ONE evaluator (values and pool are fine) ..
+        r = run.tlc("ExprCallPool_MC", _pool_cfg(1, 2, 1, "Reent", clear="after", inv="SeesOwn NoLeak"), workers=1, timeout=900,
+                    label="ExprCallPool control: cleared after Return, one goroutine")
+        require_clean(run, r, "ExprCallPool (clear-after-Return cannot be seen by a single evaluator)")
         neg = {}
         for name, inv, kw in [("get-without-mutex", "Exclusive", dict(locked=False)), ("returned-before-the-body", "SeesOwn", dict(early=True)),
+                              ("cleared-after-return/two-goroutines-one-site", "SeesOwn", dict(clear="after")),
                               ("returned-before-the-body/one-goroutine-re-entrant-site", "Exclusive", dict(early=True)),
                               ("no-initialisation", "SeesOwn", dict(init=False))]:
             w, j = (1, 2) if name == "no-initialisation" else (1, 1) if "re-entrant" in name else (2, 1)
@@ -307,6 +350,58 @@ def _check(run):
         run.cov["b3_probe_states"] = total
 
     probe_path = os.path.join(run.scratch, "c10-probe-vectors.ndjson")
+    su_path = os.path.join(run.scratch, "c10-startup-vectors.ndjson")
+    su_res = os.path.join(run.scratch, "c10-startup.json")
+
+    # ---- B3 (e) + generator: the moment a definition is compiled (ExprStartup)
+    def startup_model():
+        scn = "MCScenariosQ" if quick else "MCScenariosT"     # hand-written files + every history of <= 2 (3; 4 over a smaller pool) definitions
+        r = run.tlc("ExprStartup_Gen", "INIT GInit\nNEXT GNext\nCONSTANTS Order = \"flags-first\"\n Cache = \"none\"\n Scenarios <- %s\n"
+                    "INVARIANTS Dump\nCHECK_DEADLOCK FALSE\n" % scn, workers=2 if quick else 3, timeout=1800, label="ExprStartup_Gen " + scn)
+        if r.violated or r.errors or not r.finished:
+            raise Inconclusive("start-up generator failed: %s" % r.out[-2000:])
+        n = 0
+        with open(su_path, "w") as f:
+            for v in vfj_lines(r.out):
+                f.write(json.dumps(v, separators=(",", ":")) + "\n")
+                n += 1
+        if n < 200:
+            raise Inconclusive("start-up generator produced only %d scenarios" % n)
+        if not quick:
+            startup_laws()
+        return n
+
+    def startup_laws():
+        scn = "MCScenariosQ" if quick else "MCScenariosT"
+        # (quick: BindsAtDefinition - implied by Agrees on the calls of every defined name - is left to the thorough tier)
+        r = run.tlc("ExprStartup_MC", _su_cfg(scn=scn, inv="Agrees FoldsUnderRunEnv" if quick else "Agrees BindsAtDefinition FoldsUnderRunEnv"), workers=2 if quick else 3, timeout=1800, label="ExprStartup_MC laws " + scn)
+        require_clean(run, r, "ExprStartup_MC (laws)")
+        if r.distinct < 3000:
+            raise Inconclusive("start-up model explored only %d states" % r.distinct)
+        run.cov["b3_startup_states"] = r.distinct
+        neg = {}
+        for name, kw, inv in [("funcs-files-loaded-before-the-switches-are-applied", dict(order="funcs-first", scn="NegEnv"), "Agrees"),
+                              ("funcs-files-loaded-before-the-switches-are-applied/nounicode", dict(order="funcs-first", scn="NegEnvUni"), "Agrees"),
+                              ("funcs-files-loaded-before-the-switches-are-applied/environment", dict(order="funcs-first"), "FoldsUnderRunEnv"),
+                              ("compiler-remembers-texts-across-registrations", dict(cache="text", scn="NegCache"), "Agrees"),
+                              ("compiler-remembers-texts-across-registrations/binding", dict(cache="text"), "BindsAtDefinition"),
+                              ("compiler-remembers-texts-across-registrations/generated-histories-of-4-definitions", dict(cache="text", scn="NegCacheGen"), "Agrees")]:
+            if quick and "/" in name:
+                continue
+            r = run.tlc("ExprStartup_MC", _su_cfg(inv=inv, live=False, **kw), workers=1, timeout=900, label="ExprStartup_MC negative: " + name)
+            if inv not in r.violated:
+                raise Inconclusive("ExprStartup does not reject %s (violated=%s)\n%s" % (name, r.violated, r.out[-1500:]))
+            neg[name] = inv + " violated"
+        run.cov["startup_model_rejects"] = neg
+
+    def startup_replay():
+        if quick:           # (quick: the model's laws run in this lane, beside the longer lanes of the second phase)
+            startup_laws()
+        p = run.drv(["startup", "-in", su_path, "-out", su_res, "-dir", os.path.join(run.scratch, "c10-startup-files"), "-cli", cli,
+                     "-rounds", 20000 if quick else 100000, "-par", 4, "-envevery", 3 if quick else 1, "-genevery", 4 if quick else 8], check=False, timeout=2400)
+        if p.returncode != 0:
+            raise Inconclusive("start-up driver failed (%d):\n%s" % (p.returncode, (p.stdout + p.stderr)[-4000:]))
+        return json.load(open(su_res))
 
     def gen_probe():
         r = run.tlc("ExprProbe_Gen", "INIT GInit\nNEXT GNext\nINVARIANTS Dump\nCHECK_DEADLOCK FALSE\n", workers=2, timeout=900, label="ExprProbe_Gen")
@@ -393,13 +488,57 @@ def _check(run):
 
     # phase 1: generator (3) + laws (4) + loader (1)   | the Go law driver runs beside them
     if quick:
-        nvec, _, _, lsum, _ = parallel([gen, laws, loader, law, gen_probe], 5)
-        rep, val, _, _, _, _ = parallel([replay, validate if lsum else (lambda: None), negatives, pools, loader_layout, probe_model], 6)
+        nvec, _, _, lsum, _, _ = parallel([gen, laws, loader, law, gen_probe, startup_model], 6)
+        rep, val, _, _, _, _, sur = parallel([replay, validate if lsum else (lambda: None), negatives, pools, loader_layout, probe_model, startup_replay], 7)
     else:
-        nvec, _, lsum, _ = parallel([gen, loader, law, gen_probe], 4)
+        nvec, _, lsum, _, _ = parallel([gen, loader, law, gen_probe, startup_model], 5)
         laws()
-        rep, val, _, _, _ = parallel([replay, validate if lsum else (lambda: None), negatives, pools, loader_layout], 5)
+        rep, val, _, _, _, sur = parallel([replay, validate if lsum else (lambda: None), negatives, pools, loader_layout, startup_replay], 6)
         probe_model()
+
+    # ---- B1 verdicts: start-up scenarios (switches, re-definitions) and the contended call site
+    if sur["harness_failures"]:
+        raise Inconclusive("start-up scenarios: harness failures: %s" % sur["harness_failures"][:3])
+    site = sur["site"]
+    if not sur["n_mismatches"] and (sur["cli_runs"] < 400 or sur["inline_cli_runs"] < 150 or sur["inproc_runs"] < 100 or sur["skipped"] > 0
+                                    or sur["scenarios_with_switches"] < 100 or sur["scenarios_with_redefinitions"] < 120 or sur["per_group"].get("gen", 0) < 50
+                                    or site["children"] < 5 or site["evaluations"] < 1000000 or 64 not in site["goroutines"]):
+        raise Inconclusive("start-up replay too small: %s" % {k: v for k, v in sur.items() if k != "mismatches"})
+    run.cov["b1_startup_scenarios"] = sur["scenarios"]
+    run.cov["b1_startup_scenarios_per_group"] = sur["per_group"]
+    run.cov["b1_startup_cli_runs"] = sur["cli_runs"] + sur["inline_cli_runs"]
+    run.cov["b1_startup_evaluations_in_process"] = sur["inproc_runs"]
+    run.cov["b1_call_site_contention"] = {k: v for k, v in site.items()}
+    run.cov["traces_validated_against_impl"] += sur["cli_runs"] + sur["inline_cli_runs"] + sur["inproc_runs"] + site["evaluations"]
+    run.cov["evaluations"] += sur["cli_runs"] + sur["inline_cli_runs"] + sur["inproc_runs"] + site["evaluations"]
+    seen = {}
+    for m in sur["mismatches"]:
+        if m["class"].startswith("site-"):
+            sig = "b1:site:%s:%s" % (m["class"][5:], "opt" if m["opt"] else "noopt")
+            if m["class"] == "site-process-dies":
+                txt = ("a process that loads the funcs file below, compiles %s once (optimise=%s) and evaluates it from %d goroutines, each on its own line, "
+                       "dies: %s (ExprCallPool.tla: SeesOwn / Exclusive for W evaluators of one call site). File:\n%s" % (
+                           m["template"], m["opt"], m["goroutines"], m["got"], "\n".join(m["files"])))
+            else:
+                txt = ("%s (%s, optimise=%s) evaluated from %d goroutines on one compiled expression, each on its own line: goroutine %s in round %s on match "
+                       "groups %s got %r%s, ExprStartup.tla gives %r (%d wrong values; ExprCallPool.tla: every read reaches the reader's own match). File:\n%s" % (
+                           m["template"], m["which"], m["opt"], m["goroutines"], m.get("goroutine"), m.get("round"), m.get("m"), m.get("got"),
+                           " PANIC " + m["panic"] if m.get("panic") else "", m.get("expect"), m.get("wrong_values", 0), "\n".join(m["files"])))
+        else:
+            sig = "b1:startup:%s:%s:%s" % (m["g"], m["class"], "+".join(m["flags"]) or "default")
+            txt = ("%s with the switches %s and the funcs files below, expression %s%s on match groups %s: %s; ExprStartup.tla (a call is its body written inline "
+                   "with the function table of the place of the definition, evaluated in the run's environment) gives %s. Files:\n%s" % (
+                       {"inproc": "loaded the way main.go does (one compiler for all files)", "inline": "the inlined text on the command line"}.get(
+                           m["class"], "rare %s--funcs .. expression" % ("RARE_FUNC_FILES=.. " if m.get("via_environment") else "")),
+                       m["flags"], "" if m["opt"] else "--no-optimize ", m["template"], m["m"],
+                       ("fails: %s" % m.get("err")) if m.get("failed") or (m["class"] == "inproc" and m.get("err")) else "answers %r%s" % (
+                           m["got"], " PANIC " + m["panic"] if m.get("panic") else ""),
+                       "a compile error" if m["expect_kind"] == "err" else repr(m["expect"]), "\n---\n".join(m["files"])))
+        seen[sig] = seen.get(sig, 0) + 1
+        if seen[sig] <= 3:
+            run.violation(sig, txt, m)
+    if sur["n_mismatches"]:
+        run.cov["b1_startup_mismatches_total"] = sur["n_mismatches"]
 
     # ---- B1 verdicts
     if rep is not None:
